@@ -30,7 +30,9 @@ Record obj : Type := mkobj {
   e_rq : Z;                            (* bytes readable *)
   e_reof : bool;                       (* peer closed its sending side / FIFO writer gone *)
   e_rst : bool;                        (* connection reset *)
-  e_wdead : bool                       (* FIFO reader gone *)
+  e_wdead : bool;                      (* FIFO reader gone *)
+  e_wroom : Z                          (* bytes the kernel still accepts from a writer; negative: no limit (the harness filled the
+                                          socket's send buffer: 0, until the peer has drained it) *)
 }.
 
 Record tmr : Type := mktmr {
@@ -107,7 +109,7 @@ Definition out_of_fuel (s : loop) : loop :=
   mkloop (l_pending s) (l_disp s) (l_posts s) (l_objs s) (l_tmrs s) (l_progs s) (l_now s) (l_depth s) (l_log s) true (l_budget s) (l_overlap s).
 
 Definition new_obj (k : okind) : obj :=
-  mkobj k false false false None None false (match k with KReg => 64 | _ => 0 end) false false false.
+  mkobj k false false false None None false (match k with KReg => 64 | _ => 0 end) false false false (-1).
 Definition new_tmr : tmr := mktmr 0 false false 0 0 None false.
 
 (* ---- the kernel: read(2) / write(2) results *)
@@ -119,15 +121,15 @@ Definition sys_read (o : obj) (want : Z) : obj * sysres :=
   else if (match o_kind o with KLsn => true | _ => false end) then
     (* accept(2): one queued connection per call *)
     if 0 <? e_rq o then
-      (mkobj (o_kind o) (o_closed o) (o_evR o) (o_evW o) (o_rd o) (o_wr o) (o_reg o) (e_rq o - 1) (e_reof o) (e_rst o) (e_wdead o), SGot 1)
+      (mkobj (o_kind o) (o_closed o) (o_evR o) (o_evW o) (o_rd o) (o_wr o) (o_reg o) (e_rq o - 1) (e_reof o) (e_rst o) (e_wdead o) (e_wroom o), SGot 1)
     else (o, SWouldBlock)
   else if 0 <? e_rq o then
     (* buffered data is delivered first, also after the peer closed or reset the connection *)
     let n := Z.min want (e_rq o) in
-    (mkobj (o_kind o) (o_closed o) (o_evR o) (o_evW o) (o_rd o) (o_wr o) (o_reg o) (e_rq o - n) (e_reof o) (e_rst o) (e_wdead o), SGot n)
+    (mkobj (o_kind o) (o_closed o) (o_evR o) (o_evW o) (o_rd o) (o_wr o) (o_reg o) (e_rq o - n) (e_reof o) (e_rst o) (e_wdead o) (e_wroom o), SGot n)
   else if e_rst o then
     (* the pending socket error is reported once; afterwards the socket reads as end-of-stream *)
-    (mkobj (o_kind o) (o_closed o) (o_evR o) (o_evW o) (o_rd o) (o_wr o) (o_reg o) (e_rq o) true false (e_wdead o), SFail xReset)
+    (mkobj (o_kind o) (o_closed o) (o_evR o) (o_evW o) (o_rd o) (o_wr o) (o_reg o) (e_rq o) true false (e_wdead o) (e_wroom o), SFail xReset)
   else match o_kind o with
        | KReg => (o, SEof)
        | _ => if e_reof o then (o, SEof) else (o, SWouldBlock)
@@ -137,7 +139,11 @@ Definition sys_write (o : obj) (want : Z) : obj * sysres :=
   if o_closed o || (match o_kind o with KPipeR | KDead => true | _ => false end) then (o, SFail xEBADF)
   else if e_rst o then (o, SFail xReset)
   else if e_wdead o then (o, SFail xEPIPE)
-  else (o, SGot want).                   (* buffers are never filled by the scripts *)
+  else if e_wroom o <? 0 then (o, SGot want)
+  else if e_wroom o =? 0 then (o, SWouldBlock)      (* the send buffer is full *)
+  else
+    let n := Z.min want (e_wroom o) in
+    (mkobj (o_kind o) (o_closed o) (o_evR o) (o_evW o) (o_rd o) (o_wr o) (o_reg o) (e_rq o) (e_reof o) (e_rst o) (e_wdead o) (e_wroom o - n), SGot n).
 
 (* epoll_ctl(ADD) is refused for regular files *)
 Definition ctl_ok (o : obj) : bool := match o_kind o with KReg | KDead => false | _ => true end.
@@ -158,9 +164,9 @@ Inductive item : Type :=
 Definition prog_of (s : loop) (cb : Z) : list action := match lookup cb (l_progs s) with Some p => p | None => [] end.
 
 Definition with_rd (o : obj) (r : option opst) (evR reg : bool) : obj :=
-  mkobj (o_kind o) (o_closed o) evR (o_evW o) r (o_wr o) reg (e_rq o) (e_reof o) (e_rst o) (e_wdead o).
+  mkobj (o_kind o) (o_closed o) evR (o_evW o) r (o_wr o) reg (e_rq o) (e_reof o) (e_rst o) (e_wdead o) (e_wroom o).
 Definition with_wr (o : obj) (w : option opst) (evW reg : bool) : obj :=
-  mkobj (o_kind o) (o_closed o) (o_evR o) evW (o_rd o) w reg (e_rq o) (e_reof o) (e_rst o) (e_wdead o).
+  mkobj (o_kind o) (o_closed o) (o_evR o) evW (o_rd o) w reg (e_rq o) (e_reof o) (e_rst o) (e_wdead o) (e_wroom o).
 Definition set_sofar (p : opst) (n : Z) : opst := mkop (op_cb p) (op_all p) (op_len p) n (op_wrapped p).
 Definition set_wrapped (p : opst) (w : bool) : opst := mkop (op_cb p) (op_all p) (op_len p) (op_sofar p) w.
 Definition is_pkt (o : obj) : bool := match o_kind o with KPkt => true | _ => false end.
@@ -276,7 +282,7 @@ Definition do_action (s : loop) (a : action) : loop * list item :=
           else
             let '(s1, o1) := del_interest s i o false in
             let '(s2, o2) := del_interest s1 i o1 true in
-            let o3 := mkobj (o_kind o2) true false false (o_rd o2) (o_wr o2) false (e_rq o2) (e_reof o2) (e_rst o2) (e_wdead o2) in
+            let o3 := mkobj (o_kind o2) true false false (o_rd o2) (o_wr o2) false (e_rq o2) (e_reof o2) (e_rst o2) (e_wdead o2) (e_wroom o2) in
             (* the poller's call fails when an interest has to be removed from a descriptor epoll does not know: Close goes on
                and reports that error *)
             let err := if (o_evR o || o_evW o) && negb (ctl_ok o) then xEPERM else xNil in
@@ -399,7 +405,7 @@ Fixpoint exec (fuel : nat) (s : loop) (stack : list item) : loop :=
   end.
 
 (* ---- script operations *)
-Inductive peerop : Type := PData (n : Z) | PClose | PRst | PDrain (n : Z) | PKill.     (* PKill: descriptor closed underneath *)
+Inductive peerop : Type := PData (n : Z) | PClose | PRst | PDrain (n : Z) | PKill | PFill.     (* PKill: descriptor closed underneath *)
 
 Inductive lop : Type :=
 | LObj (i : Z) (k : okind)
@@ -427,14 +433,17 @@ Definition lstep (s0 : loop) (o : lop) : loop :=
       | None => s
       | Some o =>
           let o' := match p with
-                    | PData n => mkobj (o_kind o) (o_closed o) (o_evR o) (o_evW o) (o_rd o) (o_wr o) (o_reg o) (e_rq o + n) (e_reof o) (e_rst o) (e_wdead o)
+                    | PData n => mkobj (o_kind o) (o_closed o) (o_evR o) (o_evW o) (o_rd o) (o_wr o) (o_reg o) (e_rq o + n) (e_reof o) (e_rst o) (e_wdead o) (e_wroom o)
                     | PClose => match o_kind o with
-                                | KPipeW => mkobj (o_kind o) (o_closed o) (o_evR o) (o_evW o) (o_rd o) (o_wr o) (o_reg o) (e_rq o) (e_reof o) (e_rst o) true
-                                | _ => mkobj (o_kind o) (o_closed o) (o_evR o) (o_evW o) (o_rd o) (o_wr o) (o_reg o) (e_rq o) true (e_rst o) (e_wdead o)
+                                | KPipeW => mkobj (o_kind o) (o_closed o) (o_evR o) (o_evW o) (o_rd o) (o_wr o) (o_reg o) (e_rq o) (e_reof o) (e_rst o) true (e_wroom o)
+                                | _ => mkobj (o_kind o) (o_closed o) (o_evR o) (o_evW o) (o_rd o) (o_wr o) (o_reg o) (e_rq o) true (e_rst o) (e_wdead o) (e_wroom o)
                                 end
-                    | PRst => mkobj (o_kind o) (o_closed o) (o_evR o) (o_evW o) (o_rd o) (o_wr o) (o_reg o) (e_rq o) (e_reof o) true (e_wdead o)
-                    | PDrain _ => o
-                    | PKill => mkobj KDead (o_closed o) (o_evR o) (o_evW o) (o_rd o) (o_wr o) (o_reg o) 0 (e_reof o) (e_rst o) (e_wdead o)
+                    | PRst => mkobj (o_kind o) (o_closed o) (o_evR o) (o_evW o) (o_rd o) (o_wr o) (o_reg o) (e_rq o) (e_reof o) true (e_wdead o) (e_wroom o)
+                    | PDrain _ =>      (* the peer has read everything: the send buffer is empty again *)
+                        mkobj (o_kind o) (o_closed o) (o_evR o) (o_evW o) (o_rd o) (o_wr o) (o_reg o) (e_rq o) (e_reof o) (e_rst o) (e_wdead o) (-1)
+                    | PFill =>         (* the harness fills the socket's send buffer behind the object's back *)
+                        mkobj (o_kind o) (o_closed o) (o_evR o) (o_evW o) (o_rd o) (o_wr o) (o_reg o) (e_rq o) (e_reof o) (e_rst o) (e_wdead o) 0
+                    | PKill => mkobj KDead (o_closed o) (o_evR o) (o_evW o) (o_rd o) (o_wr o) (o_reg o) 0 (e_reof o) (e_rst o) (e_wdead o) (e_wroom o)
                     end in
           set_obj s i o'
       end
